@@ -82,7 +82,32 @@ def cases(draw, max_nodes):
            "rseed": draw(st.integers(0, 999))}
     if failing:
         cfg["max_errors"] = draw(st.sampled_from([None, None, None, 5, 0]))
+    if draw(st.integers(0, 3)) == 0:
+        # consumers that fail on their first attempt and succeed when retried
+        cfg["retry"] = draw(st.sampled_from([2, 3]))
+        for nd in g.nodes:
+            if nd["k"] == "call" and nd["beh"]["t"] == "ok" and not nd.get("stored") and specs.arg_preds(nd) \
+                    and draw(st.integers(0, 2)) == 0:
+                nd["beh"] = {"t": "raise", "exc": "exc", "first": 1}
     return {"spec": spec, "cfg": cfg, "registry": use_reg, "sched": draw(harness.schedules(real_share=40))}
+
+
+class PausingRecorder(Recorder):
+    """Records like Recorder and then yields: another worker may start a call while this one is still inside
+    the observer's increment_completed / increment_failed."""
+
+    def __init__(self, pause):
+        super().__init__()
+        self._pause = pause
+
+    def increment_completed(self, *, section, scope):
+        super().increment_completed(section=section, scope=scope)
+        self._pause("observer")
+
+    def increment_failed(self, *, section, scope, exception):
+        super().increment_failed(section=section, scope=scope, exception=exception)
+        del exception
+        self._pause("observer")
 
 
 def consumers_of(spec, registry_entries):
@@ -111,7 +136,7 @@ def check_case(ctx, case, record=True):
     if use_reg:
         w.init_sources()
     ent = refmodel.entries(spec) if use_reg else set()
-    rec = Recorder()
+    rec = PausingRecorder(w.pause)
     out_refs = {specs.ref_index(r) for r in specs.arg_refs(spec["output"])} if spec.get("output") else set()
     cons = consumers_of(spec, ent)
     lock = threading.Lock()
@@ -136,7 +161,7 @@ def check_case(ctx, case, record=True):
             nd = nodes[i]
             if nd["k"] == "call":
                 prod = (label_call(i),)
-                if nd["beh"]["t"] == "raise":
+                if nd["beh"]["t"] == "raise" and nd["beh"]["first"] < 0:
                     continue
                 # a result nobody consumes is judged once its producer was reported completed; a result with
                 # consumers once all of them were (they can only have run after the producer returned) - the
@@ -198,10 +223,15 @@ def check_case(ctx, case, record=True):
                  common.sched_classes(case, out) + ["registry" if use_reg else "no_registry",
                                                     "early_release_checked" if stats["early_checked"] else "no_early_release"]
                  + (["released_after_failed_consumer"] if stats.get("after_failure") else [])
-                 + (["failing_consumer"] if any(nd["k"] == "call" and nd["beh"]["t"] == "raise" for nd in nodes) else []))
+                 + (["failing_consumer"] if any(nd["k"] == "call" and nd["beh"]["t"] == "raise" and nd["beh"]["first"] < 0 for nd in nodes) else [])
+                 + (["retried_consumer"] if cfg.get("retry") else []))
     if out.verdict or out.uncaught:
         ctx.violation(case2, f"scheduler verdict {out.verdict} {out.verdict_info}; uncaught {out.uncaught!r}")
-    failed_any = any(e[1] == "raise" for e in w.events)
+    last = {}
+    for e in w.events:
+        if e[1] in ("raise", "end"):
+            last[e[2]] = e[1]
+    failed_any = any(v == "raise" for v in last.values())  # a call whose final attempt raised
     if status != "ok" and not failed_any:
         ctx.violation(case2, f"run failed: {err!r} cause {getattr(err, '__cause__', None)!r}")
     if status == "ok" and failed_any:
